@@ -502,19 +502,24 @@ impl From<&RowIdSequence> for RowIdTreeMap {
                 U64Segment::Range(range) => {
                     tree_map.insert_range(range.clone());
                 }
+                // For the segments with holes, build the segment's own set first: removing
+                // the holes from `tree_map` directly would also remove ids that belong to
+                // other segments and happen to fall into this segment's range.
                 U64Segment::RangeWithBitmap { range, bitmap } => {
-                    tree_map.insert_range(range.clone());
+                    let mut segment_ids = Self::from(range.clone());
                     for (i, val) in range.clone().enumerate() {
                         if !bitmap.get(i) {
-                            tree_map.remove(val);
+                            segment_ids.remove(val);
                         }
                     }
+                    tree_map |= segment_ids;
                 }
                 U64Segment::RangeWithHoles { range, holes } => {
-                    tree_map.insert_range(range.clone());
+                    let mut segment_ids = Self::from(range.clone());
                     for hole in holes.iter() {
-                        tree_map.remove(hole);
+                        segment_ids.remove(hole);
                     }
+                    tree_map |= segment_ids;
                 }
                 U64Segment::SortedArray(array) | U64Segment::Array(array) => {
                     for val in array.iter() {
